@@ -617,6 +617,90 @@ func (s *service) getValidators(txes ...dbft.Transaction[util.Uint256]) []dbft.P
   [("pkg/consensus/recovery_message.go", [("""		cc.message.ViewNumber = c.ViewNumber
 		cc.message.ValidatorIndex = c.ValidatorIndex""", """		cc.message.ValidatorIndex = c.ValidatorIndex
 		cc.message.ViewNumber = c.ViewNumber""")])]),
+ # ---- batch 7: the rules written in round 7 ----
+ ("r8-removeconflicts-slices-delete", ["C08"], "removeConflictsOf: the one-element splice written with slices.Delete",
+  [("pkg/core/mempool/mem_pool.go", [("""				mp.conflicts[conflictsHash] = append(mp.conflicts[conflictsHash][:i], mp.conflicts[conflictsHash][i+1:]...)
+				break""", """				mp.conflicts[conflictsHash] = slices.Delete(mp.conflicts[conflictsHash], i, i+1)
+				break""")])]),
+ ("r8-tryaddfee-check-first", ["C08", "C07"], "tryAddSendersFee: the needCheck branch inverted",
+  [("pkg/core/mempool/mem_pool.go", [("""	if needCheck {
+		newFeeSum, err := checkBalance(tx, payerFee)
+		if err != nil {
+			return false
+		}
+		payerFee.feeSum = newFeeSum
+	} else {
+		payerFee.feeSum.AddUint64(&payerFee.feeSum, uint64(tx.SystemFee+tx.NetworkFee))
+	}""", """	if !needCheck {
+		payerFee.feeSum.AddUint64(&payerFee.feeSum, uint64(tx.SystemFee+tx.NetworkFee))
+	} else {
+		newFeeSum, err := checkBalance(tx, payerFee)
+		if err != nil {
+			return false
+		}
+		payerFee.feeSum = newFeeSum
+	}""")])]),
+ ("r8-slotstore-release-first", ["C12", "C13"], "Slot.store: the old content read into a local before the pop",
+  [("pkg/vm/slot.go", [("""	item := stack.popNoRef().Item()
+	refs.Remove(s[i])
+	s[i] = item""", """	old := s[i]
+	item := stack.popNoRef().Item()
+	refs.Remove(old)
+	s[i] = item""")])]),
+ ("r8-seekgc-defer-unlock", ["C09"], "MemoryStore.SeekGC: the unlock deferred",
+  [("pkg/core/storage/memory_store.go", [("""	s.mut.Lock()
+	// We still need to perform normal seek, some GC operations can be""", """	s.mut.Lock()
+	defer s.mut.Unlock()
+	// We still need to perform normal seek, some GC operations can be"""), ("""	}, noop, noop)
+	s.mut.Unlock()
+	return nil""", """	}, noop, noop)
+	return nil""")])]),
+ ("r8-loadscript-flags-two-steps", ["C15", "C16"], "LoadScript: the flags narrowed in two statements",
+  [("pkg/core/interop/runtime/engine.go", [("""	fs = ic.VM.Context().GetCallFlags() & callflag.ReadOnly & fs""", """	fs &= callflag.ReadOnly
+	fs &= ic.VM.Context().GetCallFlags()""")])]),
+ ("r8-addmptbatch-pointer-copy", ["C11", "C02", "C10"], "AddMPTBatch: the copy named differently",
+  [("pkg/core/stateroot/module.go", [("re", r"\bmpt := \*s\.mpt\n\tmpt\.Store = cache\n\tif _, err := mpt\.PutBatch\(b\); err != nil \{\n\t\treturn nil, nil, err\n\t\}\n\tmpt\.Flush\(index\)\n\tsr := &state\.MPTRoot\{\n\t\tIndex: index,\n\t\tRoot:  mpt\.StateRoot\(\),\n\t\}\n\ts\.addLocalStateRoot\(cache, sr\)\n\treturn &mpt, sr, nil", "tr := *s.mpt\n\ttr.Store = cache\n\tif _, err := tr.PutBatch(b); err != nil {\n\t\treturn nil, nil, err\n\t}\n\ttr.Flush(index)\n\tsr := &state.MPTRoot{\n\t\tIndex: index,\n\t\tRoot:  tr.StateRoot(),\n\t}\n\ts.addLocalStateRoot(cache, sr)\n\treturn &tr, sr, nil")])]),
+ ("r8-jump-bound-swapped", ["C13", "C12"], "Context.Jump: the bound test with swapped operands",
+  [("pkg/smartcontract/scparser/context.go", [("""	if pos < 0 || pos >= len(c.prog) {
+		panic("instruction offset is out of range")""", """	if len(c.prog) <= pos || pos < 0 {
+		panic("instruction offset is out of range")""")])]),
+ ("r8-initslot-guard-split", ["C13", "C12"], "INITSLOT: the double-initialisation guard as one test per slot",
+  [("pkg/vm/vm.go", [("""		if ctx.local != nil || ctx.arguments != nil {
+			panic("already initialized")
+		}
+		if parameter[0] == 0 && parameter[1] == 0 {""", """		if ctx.arguments != nil || ctx.local != nil {
+			panic("already initialized")
+		}
+		if parameter[1] == 0 && parameter[0] == 0 {""")])]),
+ ("r8-istxrelevant-recheck-demorgan", ["C06", "C07"], "IsTxStillRelevant: the re-verification test written positively",
+  [("pkg/core/blockchain.go", [("""		if !scparser.IsStandardContract(t.Scripts[i].VerificationScript) {
+			recheckWitness = true
+			break
+		}""", """		if scparser.IsStandardContract(t.Scripts[i].VerificationScript) {
+			continue
+		}
+		recheckWitness = true
+		break""")])]),
+ ("r8-getproofmode-local", ["C03", "C10", "C11"], "GetStateProof: the masked mode through a local",
+  [("pkg/core/stateroot/module.go", [("re", r"func \(s \*Module\) GetStateProof\(root util\.Uint256, key \[\]byte\) \(\[\]\[\]byte, error\) \{\n", "func (s *Module) GetStateProof(root util.Uint256, key []byte) ([][]byte, error) {\n\treadMode := s.mode &^ mpt.ModeGCFlag\n\t_ = readMode\n")])]),
+ ("r8-multisig-close-defer-func", ["C12"], "CheckMultisigPar: the deferred close inside a closure",
+  [("pkg/vm/vm.go", [("""	defer close(tasks)
+	for range workerCount {""", """	defer func() { close(tasks) }()
+	for range workerCount {""")])]),
+ ("r8-verifyblock-pooled-local", ["C19", "C07", "C06"], "verifyBlock: the pooled test bound to a local",
+  [("pkg/consensus/consensus.go", [("""		if isPooledAsIs(mainPool, tx) {
+			err = pool.Add(tx, s.Chain)""", """		pooledAsIs := isPooledAsIs(mainPool, tx)
+		if pooledAsIs {
+			err = pool.Add(tx, s.Chain)""")])]),
+ ("r8-server-start-queue-order", ["C20"], "Server.Start: the queues started in another order",
+  [("pkg/network/server.go", [("""	go s.bQueue.Run()
+	go s.bFetcherQueue.Run()
+	if !s.config.NeoFSStateSyncExtensions {""", """	go s.bFetcherQueue.Run()
+	go s.bQueue.Run()
+	if !s.config.NeoFSStateSyncExtensions {""")])]),
+ ("r8-tojson-abs-cmp-var", ["C17"], "toJSON: the limit bound to a local",
+  [("pkg/vm/stackitem/json.go", [("""		if it.Big().CmpAbs(big.NewInt(MaxAllowedInteger)) == 1 {""", """		limit := big.NewInt(MaxAllowedInteger)
+		if it.Big().CmpAbs(limit) == 1 {""")])]),
 ]
 
 out = "/verif/benign"
